@@ -207,8 +207,10 @@ def proto_entry(fn):
         s.c.requires(z3.BoolVal(s.get(fsm, 'protocol') is P), 'single-connection regime: receiver is the tracked connection')
         profile_dont_cares(s, fsm)
         s.dont_care(s.get(P, 'factory'), 'status')
-        for k in ('adj_rib_in', 'adj_rib_out'):
-            s.dont_care(P, k)
+        # C19: both tables are empty after a connection starts or ends (init_rib)
+        fams = s.it.m.conf.f['bgp'].f['afi_safi']
+        s.set(P, 'adj_rib_in', {k: {} for k in fams})
+        s.set(P, 'adj_rib_out', {k: {} for k in fams})
         r = fn(s, P, *args)
         ensure_inv(s, fsm)
         return r
